@@ -67,6 +67,14 @@ func newWorld(r *rand.Rand, o worldOpts) *World {
 	foods = append(foods, w.Unknown...)
 	days := o.MinDays + r.Intn(o.MaxDays-o.MinDays+1)
 	w.Log = gen.RandomLog(r, gen.LogOpts{Days: days, Foods: foods, Exact: o.Exact, Sorted: o.Sorted, Notes: o.Notes, EmptyDays: !o.NoEmpty, NoDupFoods: o.NoDupFoods, Start: o.Start})
+	if o.Notes {
+		// recipes carry metadata lines too (README: "# barcode: ...")
+		for i := range w.Book {
+			if r.Intn(3) == 0 {
+				w.Book[i].Notes = gen.RandomNotes(r)
+			}
+		}
+	}
 	w.Res = model.Resolve(w.Book)
 	w.Abs = model.AbsPaths(w.Book)
 	var st *gen.Style
